@@ -46,10 +46,17 @@ type Closure struct {
 // same underlying struct, such as interpreter.MonetaryInt).
 type BigVal struct {
 	T *smt.Term
+	// Buf identifies the backing array the real big.Int would use: struct copies
+	// share it, operations write into the receiver's array when it has one. Ver is
+	// the array's version this value was valid for (see aliasing hazards).
+	Buf *bigBuf
+	Ver int
 	// Lazy: the value is the numerator (Num) or denominator of N/D in lowest terms,
 	// not yet computed; Int.Div of such a pair is floor(N/D) without normalising.
 	Lazy *normPart
 }
+
+type bigBuf struct{ ver int }
 
 type normPart struct {
 	N, D *smt.Term
